@@ -16,6 +16,7 @@ import KafkaVerif.Lemmas.ReaderCloseSystem
 import KafkaVerif.Lemmas.GroupConns
 import KafkaVerif.Lemmas.WriterCloseDetail
 import KafkaVerif.Lemmas.WriterCloseProgress
+import KafkaVerif.Lemmas.WriterCloseMeasure
 
 namespace KV.C09
 open KV.WriterClose
@@ -794,6 +795,30 @@ theorem writer_detail_progress_invariants (cfg : KV.Writer.Cfg) (s : KV.Writer.S
   ⟨KV.WriterCloseDetail.pi_reachable cfg s hr, KV.WriterCloseDetail.qi_reachable cfg s hr,
    KV.WriterCloseDetail.cs_reachable cfg s hr⟩
 
+/-- **writer_detail_close_measure_decreases** — on the detailed Writer model every *closing* event (a step of Close after
+its begin, of a partition writer's goroutine, of the broker, of a call already inside WriteMessages) strictly lowers
+`closeMu` = [Close holds the mutex] + Σ partition writers (sender steps left, queued / pending / open batches, queue still
+open, goroutine not exited) + Σ calls (steps to their return), in every reachable state. -/
+theorem writer_detail_close_measure_decreases (cfg : KV.Writer.Cfg) (hmax : 1 ≤ cfg.maxAttempts) (s s' : KV.Writer.State)
+    (hr : KV.Writer.Reachable cfg s) (e : KV.Writer.Event) (hcl : KV.WriterCloseDetail.closing s e = true)
+    (hs : KV.Writer.step cfg s e = some s') :
+    KV.WriterCloseDetail.closeMu cfg s' < KV.WriterCloseDetail.closeMu cfg s :=
+  KV.WriterCloseDetail.closing_decreases cfg hmax s s' hr e hcl hs
+
+/-- **writer_detail_close_terminates** — Close terminates on the detailed Writer model in every schedule: from a
+reachable state with the writer closed and no call between `enter()` and its identification, every run of closing
+events has at most `closeMu` steps, and a run that cannot be extended ends in a state in which `closeReturn` is enabled.
+(Outside the closing set: new callers, further Close calls, timers — Close needs none —, and the events that need an
+open writer, which are disabled once `closed`.)  With `writer_detail_close_return_complete` this is the whole Writer
+clause of C09 on the model that C01/C07/C08 replay hook traces through one event at a time. -/
+theorem writer_detail_close_terminates (cfg : KV.Writer.Cfg) (hmax : 1 ≤ cfg.maxAttempts) (s : KV.Writer.State)
+    (hr : KV.Writer.Reachable cfg s) (hc : s.closed = true) (he : s.entered = 0) (es : List KV.Writer.Event)
+    (s' : KV.Writer.State) (hrun : KV.WriterCloseDetail.closingRun cfg s es = some s') :
+    es.length ≤ KV.WriterCloseDetail.closeMu cfg s ∧
+    ((∀ e, KV.WriterCloseDetail.closing s' e = true → KV.Writer.step cfg s' e = none) →
+      (KV.Writer.step cfg s' .closeReturn).isSome = true) :=
+  KV.WriterCloseDetail.close_terminates_detail cfg hmax s hr hc he es s' hrun
+
 /-- not vacuous: a run of the detailed model in which Close begins while a batch is still queued, the batch is then
 sent, its Completion runs, the call returns, the sender exits and Close returns -/
 def detailCfg : KV.Writer.Cfg :=
@@ -806,5 +831,13 @@ example : KV.Writer.accepts detailCfg
      .closeBegin, .qclose 1, .closeMarked 1,
      .qget 1 (some 1), .attempt 1 1 0, .produce 1 ("t", 0) [(1, 0)] .acked, .attemptDone 1 1 0 0,
      .completion 1 1 0, .complete 1 1 0, .ret 1 .ok, .qget 1 none, .closeReturn] = true := by decide
+
+/-- … and everything between CloseBegin and CloseReturn in that run is a closing event -/
+example : ((KV.Writer.run detailCfg KV.Writer.State.init
+    [.enter true, .begin_ 1 [{ size := 1, topic := "" }], .assign 1 0 ("t", 0), .batch 1,
+     .newPW 1 1 ("t", 0), .newBatch 1 1, .add 1 1 1 0 1, .detach 1 1 .full 0, .qput 1 1 true, .batched 1,
+     .closeBegin]).bind (fun s => KV.WriterCloseDetail.closingRun detailCfg s
+    [.qclose 1, .closeMarked 1, .qget 1 (some 1), .attempt 1 1 0, .produce 1 ("t", 0) [(1, 0)] .acked,
+     .attemptDone 1 1 0 0, .completion 1 1 0, .complete 1 1 0, .ret 1 .ok, .qget 1 none])).isSome = true := by decide
 
 end KV.C09
